@@ -1,6 +1,13 @@
 """Contracts for workflows.representation.validate: @catch_error handler tables (C08, C23)."""
 from pyvc.dsl import *  # noqa
 
+try:  # native side only
+    from workflows.events import (  # noqa
+        Event, HumanResponseEvent, InputRequiredEvent, StartEvent, StepFailedEvent, StopEvent,
+    )
+except ImportError:  # pragma: no cover
+    pass
+
 MODULE = "workflows.representation.validate"
 
 
@@ -244,4 +251,134 @@ class CollectCatchErrorHandlers:
         )
 
     def ensures_input_untouched(old, steps, result):
+        return same(steps, old.steps)
+
+
+# ------------------------------------------------------------------ event connectivity and the human-in-the-loop flag
+def accepts_stop(cfg: "StepConfig"):
+    return exists(len(cfg.accepted_events), lambda j: issubclass(cfg.accepted_events[j], StopEvent))
+
+
+def produced_by(steps: "dict[str, StepConfig]", n: "int", t: "type"):
+    """one of the first n steps (iteration order) returns t"""
+    return exists_key(
+        steps,
+        lambda k: dpos(steps, k) < n
+        and exists(len(steps[k].return_types), lambda j: steps[k].return_types[j] == t and t is not type(None)),
+    )
+
+
+def consumed_by(steps: "dict[str, StepConfig]", n: "int", t: "type"):
+    return exists_key(
+        steps, lambda k: dpos(steps, k) < n and exists(len(steps[k].accepted_events), lambda j: steps[k].accepted_events[j] == t)
+    )
+
+
+def boundary_in(t: "type"):
+    """event types that may enter a workflow from outside (consumed without being produced)"""
+    return (
+        issubclass(t, InputRequiredEvent)
+        or issubclass(t, HumanResponseEvent)
+        or issubclass(t, StopEvent)
+        or issubclass(t, StepFailedEvent)
+    )
+
+
+def boundary_out(t: "type"):
+    """event types that may leave a workflow (produced without being consumed)"""
+    return issubclass(t, InputRequiredEvent) or issubclass(t, HumanResponseEvent) or issubclass(t, StopEvent)
+
+
+def connectivity_ok(steps: "dict[str, StepConfig]", start: "type"):
+    """C23: no step consumes a StopEvent; every consumed event is produced (or is a boundary event) and vice versa"""
+    return (
+        forall_keys(steps, lambda k: not accepts_stop(steps[k]))
+        and forall_of(
+            "type",
+            lambda t: (not consumed_by(steps, dsize(steps), t))
+            or t == start
+            or produced_by(steps, dsize(steps), t)
+            or boundary_in(t),
+        )
+        and forall_of(
+            "type",
+            lambda t: (not (t == start or produced_by(steps, dsize(steps), t)))
+            or consumed_by(steps, dsize(steps), t)
+            or boundary_out(t),
+        )
+    )
+
+
+@contract("workflows.representation.validate._validate_event_connectivity")
+class ValidateEventConnectivity:
+    properties = ["C23"]
+    raises = ["WorkflowValidationError"]
+
+    def requires(steps, start_event_class):
+        return True
+
+    def raises_WorkflowValidationError(old, steps, start_event_class):
+        # rejected only when the step set really is ill-connected
+        return not connectivity_ok(steps, start_event_class)
+
+    # loop 1: for name, cfg in steps.items()
+    def inv_1():
+        return (
+            forall_of("type", lambda t: (t in produced_events) == (t == start_event_class or produced_by(steps, _i, t)))
+            and forall_of("type", lambda t: (t in consumed_events) == consumed_by(steps, _i, t))
+            and (len(steps_accepting_stop_event) > 0)
+            == exists_key(steps, lambda k: dpos(steps, k) < _i and accepts_stop(steps[k]))
+        )
+
+    # loop 2: for event_type in cfg.accepted_events (break at the first StopEvent subclass)
+    def inv_2():
+        return (
+            forall(_i, lambda j: not issubclass(cfg.accepted_events[j], StopEvent))
+            and same(steps_accepting_stop_event, pre(steps_accepting_stop_event))
+            and same(produced_events, pre(produced_events))
+            and same(consumed_events, pre(consumed_events))
+        )
+
+    # loop 3: for event_type in cfg.accepted_events
+    def inv_3():
+        return (
+            forall_of(
+                "type",
+                lambda t: (t in consumed_events)
+                == (t in pre(consumed_events) or exists(_i, lambda j: cfg.accepted_events[j] == t)),
+            )
+            and same(steps_accepting_stop_event, pre(steps_accepting_stop_event))
+            and same(produced_events, pre(produced_events))
+        )
+
+    # loop 4: for event_type in cfg.return_types
+    def inv_4():
+        return (
+            forall_of(
+                "type",
+                lambda t: (t in produced_events)
+                == (
+                    t in pre(produced_events)
+                    or exists(_i, lambda j: cfg.return_types[j] == t and t is not type(None))
+                ),
+            )
+            and same(steps_accepting_stop_event, pre(steps_accepting_stop_event))
+            and same(consumed_events, pre(consumed_events))
+        )
+
+    def ensures_accepted_only_if_connected(old, steps, start_event_class, result):
+        return connectivity_ok(steps, start_event_class)
+
+    def ensures_human_in_the_loop_flag(old, steps, start_event_class, result):
+        # C23: "true iff an InputRequiredEvent is produced or a HumanResponseEvent is consumed" - an event of a
+        # subclass IS such an event
+        return result == (
+            exists_of(
+                "type",
+                lambda t: (t == start_event_class or produced_by(steps, dsize(steps), t)) and issubclass(t, InputRequiredEvent),
+            )
+            or exists_of("type", lambda t: consumed_by(steps, dsize(steps), t) and issubclass(t, HumanResponseEvent))
+        )
+
+    def ensures_input_untouched(old, steps, start_event_class, result):
         return same(steps, old.steps)
